@@ -295,3 +295,60 @@ Print Assumptions C08_M3_flush_cut_example.
 Print Assumptions C08_M3_flush_done_example.
 Print Assumptions C08_M3_race_verdict_adapter_failed.
 Print Assumptions C08_M3_race_verdict_resumed.
+
+(* ---- M3: delivered completely.  Whenever a run ends successfully - Transfer sent, no-target Disconnect sent, or the
+   timeout Disconnect flushed - every byte of every packet sent has been accepted by the transport, whatever the
+   transport did in between.  The last example shows the hypothesis is needed: an adapter failure during a pending
+   verdict leaves part of the Disconnect unsent.  Proofs in Conn/Sem3Delivery.v. ---- *)
+From Passage Require Import Conn.Sem3Delivery.
+
+Theorem C08_M3_delivered_ok : forall o cfg e encf loclat cap sch s,
+  (exists pre t, trace_of (run3 o cfg e encf loclat cap sch s) = pre ++ [(t, TEnd OOk)]) ->
+  concat (map (fun ev => match snd ev with TSend pk vs => frame_bytes encf pk vs | _ => [] end)
+              (trace_of (run3 o cfg e encf loclat cap sch s)))
+  = concat (map snd (wire_of (run3 o cfg e encf loclat cap sch s))).
+Proof. exact run3_delivered_ok. Qed.
+
+Theorem C08_M3_delivered_no_target : forall o cfg e encf loclat cap sch s,
+  (exists pre t, trace_of (run3 o cfg e encf loclat cap sch s) = pre ++ [(t, TEnd (OErr KNoTarget))]) ->
+  concat (map (fun ev => match snd ev with TSend pk vs => frame_bytes encf pk vs | _ => [] end)
+              (trace_of (run3 o cfg e encf loclat cap sch s)))
+  = concat (map snd (wire_of (run3 o cfg e encf loclat cap sch s))).
+Proof. exact run3_delivered_no_target. Qed.
+
+Theorem C08_M3_delivered_missed_ka : forall o cfg e encf loclat cap sch s,
+  (exists pre t, trace_of (run3 o cfg e encf loclat cap sch s) = pre ++ [(t, TEnd (OErr KMissedKA))]) ->
+  concat (map (fun ev => match snd ev with TSend pk vs => frame_bytes encf pk vs | _ => [] end)
+              (trace_of (run3 o cfg e encf loclat cap sch s)))
+  = concat (map snd (wire_of (run3 o cfg e encf loclat cap sch s))).
+Proof. exact run3_delivered_missed_ka. Qed.
+
+Theorem C08_M3_listen_flushed : forall o cfg, flushed_ends false (listen o cfg).
+Proof. exact listen_flushed. Qed.
+
+Theorem C08_M3_delivered_example :
+  let out := exec3 ex_cfg (ex_env RErr) ex_encf 0
+               (Send configuration_cb_TransferPacket [] (Ret OOk))
+               {| c2 := ex_st2 None; c_unsent := []; c_cap := Some 1; c_sch := [(4, None)]; c_missed := MNo |} in
+  map fst (trace_of out) = [0; 4]
+  /\ map fst (wire_of out) = [0; 4]
+  /\ wbytes out = fbytes ex_encf (trace_of out)
+  /\ length (wbytes out) = 3%nat.
+Proof. exact delivered_example. Qed.
+
+Theorem C08_M3_undelivered_on_adapter_error :
+  let out := exec3 ex_cfg (ex_env RErr) ex_encf 0 ex_race
+               {| c2 := ex_st2 (Some 1); c_unsent := []; c_cap := Some 1; c_sch := []; c_missed := MNo |} in
+  untime (trace_of out)
+    = [TCall CDiscover; TTick; TCall (CLocalize None key_timeout); TRes (CLocalize None key_timeout) (RText [65]);
+       TSend configuration_cb_DisconnectPacket [VB [65]]; TEnd (OErr KAdapter)]
+  /\ length (fbytes ex_encf (trace_of out)) = 3%nat
+  /\ length (wbytes out) = 1%nat.
+Proof. exact undelivered_on_adapter_error. Qed.
+
+Print Assumptions C08_M3_delivered_ok.
+Print Assumptions C08_M3_delivered_no_target.
+Print Assumptions C08_M3_delivered_missed_ka.
+Print Assumptions C08_M3_listen_flushed.
+Print Assumptions C08_M3_delivered_example.
+Print Assumptions C08_M3_undelivered_on_adapter_error.
